@@ -341,6 +341,7 @@ DEFAULT_PROFILE = dict(
     p_ts_bytes_default=0.0,     # K16: emitted as str, refused by the runtime
     p_multi_pos_custom=0.0,     # K8
     p_three_part_field_ref=0.0,  # K22 (swift/objc _docf)
+    p_marker_chain=0.0,          # struct <- field-less struct <- struct chains
     p_tag_named_like_member_field=0.0,  # union tag named after a field of its struct member type
     p_prefer_redacted_alias=0.0,  # bias user-type positions towards aliases carrying a redactor
     p_alias_field_ref=0.0,       # :field:`Alias.f` (whitelist doc-ref parser)
@@ -1285,7 +1286,15 @@ class Gen:
                 elif x < p['p_alias'] + p['p_union'] + p['p_subtypes']:
                     self.gen_subtype_tree(ns)
                 else:
-                    self.gen_struct(ns)
+                    d0 = self.gen_struct(ns)
+                    if p['p_marker_chain'] and r.random() < p['p_marker_chain'] and \
+                            not d0.subtypes and (d0.ns, d0.name) not in self.no_extend and \
+                            self.depth_of.get((d0.ns, d0.name), 0) < 2:
+                        # a field-less "marker" struct in the middle of a chain: its
+                        # constructor only forwards what it inherits
+                        mid = self.gen_struct(ns, parent=(d0.ns, d0.name), n_fields=0)
+                        self.gen_struct(ns, parent=(mid.ns, mid.name), n_fields=r.choice([0, 1, 2]))
+                        self.m.feature('marker_chain')
             self.gen_backrefs(ns)
             routes = []
             for _ in range(r.randint(*p['n_routes']) * (2 if big else 1)):
